@@ -173,7 +173,7 @@ PROPS["C05"] = dict(
     assumptions=_SIM_ASSUME + ["conformance to spec/informal-spec/replica.rs is checked through these derived invariants and the per-input accept/reject statistics, not by a step-by-step model diff"],
     stages=[dict(name="sim", flavour="release", **SIM)],
     floors={"quick": {"snapshots_checked": 100000, "durable_states_checked": 10000, "view_changes_observed": 3000, "new_views_checked": 3000, "proposals_checked": 500, "timeout_votes_checked": 2000, "restarts": 100},
-            "thorough": {"snapshots_checked": 1000000}},
+            "thorough": {"snapshots_checked": 300000}},
 )
 
 PROPS["C06"] = dict(
